@@ -513,7 +513,7 @@ def input_tags(d):
     return cls
 
 
-KNOWN_CLASSES = ("crate-alias",)
+KNOWN_CLASSES = ()
 
 
 def classify(d):
